@@ -159,3 +159,28 @@ def pick(i, n):
         if i == k:
             return k
     raise ValueError("index out of range")
+
+
+import contextlib as _contextlib
+
+
+@_contextlib.contextmanager
+def real_io():
+    """Run a block with the tracer suspended and CrossHair's audit wall opened: harnesses that need real files (temporary
+    schema trees) do their I/O here; everything inside is concrete (indices are realised by pick() before)."""
+    import warnings
+    try:
+        from crosshair.tracers import NoTracing
+        from crosshair import auditwall
+    except ImportError:
+        with warnings.catch_warnings():
+            warnings.simplefilter("ignore")
+            yield
+        return
+    with NoTracing(), warnings.catch_warnings():
+        warnings.simplefilter("ignore")
+        if auditwall._ENABLED:
+            with auditwall.opened_auditwall():
+                yield
+        else:
+            yield
